@@ -88,20 +88,20 @@ func (c CacheCfg) String() string {
 // installCacheLayout makes both the string Map and the default hasher of MapOf
 // use the given layout (keys are "k<i>" / i).
 func installCacheLayout(l *Layout) {
-	xsync.VerifSeed = func() uint64 { return 1 }
+	xsync.VerifSeed = seedSequence()
 	if l == nil {
 		xsync.VerifHashString = nil
 		xsync.VerifHasher = nil
 		return
 	}
 	lay := *l
-	xsync.VerifHashString = func(s string, _ uint64) uint64 { return lay.hashMap(keyIndex(s)) }
+	xsync.VerifHashString = func(s string, seed uint64) uint64 { return lay.hashMapSeeded(keyIndex(s), seed) }
 	xsync.VerifHasher = func(zero interface{}) interface{} {
 		switch zero.(type) {
 		case string:
-			return func(k string, _ uint64) uint64 { return lay.hashMapOf(keyIndex(k)) }
+			return func(k string, seed uint64) uint64 { return lay.hashMapOfSeeded(keyIndex(k), seed) }
 		case int:
-			return func(k int, _ uint64) uint64 { return lay.hashMapOf(k) }
+			return func(k int, seed uint64) uint64 { return lay.hashMapOfSeeded(k, seed) }
 		}
 		return nil
 	}
